@@ -43,6 +43,12 @@ class P(ServeProp):
             body = b"field%d=value%d&n=%d" % (i, i, i)
             R.append(b"POST /form-url-encoded-enctype-post-method HTTP/1.1\r\nContent-Type: application/x-www-form-urlencoded\r\nContent-Length: %d\r\n\r\n" % len(body) + body)
             R.append(b"GET /f%d.txt HTTP/1.1\r\nOrigin: https://o%d.example\r\n\r\n" % (i, i))
+        # form posts of very different sizes, with and without Content-Length: what an earlier, longer request left anywhere must not show up
+        for i, n in enumerate([1, 3, 40, 400]):
+            body = b"&".join(b"tok%d_%d=SECRET-%d-%d" % (i, j, i, j) for j in range(n))
+            R.append(b"POST /form-url-encoded-enctype-post-method HTTP/1.1\r\nContent-Type: application/x-www-form-urlencoded\r\n\r\n" + body)
+            R.append(b"POST /form-url-encoded-enctype-post-method HTTP/1.1\r\nContent-Type: application/x-www-form-urlencoded\r\nContent-Length: %d\r\n\r\n" % len(body) + body)
+        R.append(b"POST /form-url-encoded-enctype-post-method HTTP/1.1\r\nContent-Type: application/x-www-form-urlencoded\r\n\r\nu=bob")
         return R
 
     def extra(self, tier, seed, work, notes):
@@ -59,6 +65,18 @@ class P(ServeProp):
             open(os.path.join(root, "f%d.txt" % i), "wb").write(b"file-%d-" % i * (i + 1))
         reqs = self.requests(rnd)
         rounds = 3 if tier == "quick" else 12
+        # reference answers: each request alone on a server that has served nothing before
+        fresh = []
+        try:
+            for r in reqs:
+                f = netprobe.Server(exe, root, threads=1)
+                try:
+                    fresh.append(canon_resp(f.request(r)))
+                finally:
+                    f.stop()
+        except Exception as e:
+            notes.append("campaign: fresh-server references unavailable (%s)" % e)
+            fresh = [None] * len(reqs)
         compared, samples = 0, []
         for rd in range(rounds):
             N = rnd.choice([1, 2, 4, 8, 16])
@@ -69,6 +87,12 @@ class P(ServeProp):
                 return {"failures": fails, "coverage": {"campaign": "skipped: bind failed", "concurrent_responses_compared": compared}}
             try:
                 serial = [canon_resp(s.request(r)) for r in reqs]
+                # the serial answers themselves must be the answers of a server that has seen nothing else (history independence)
+                for i, r in enumerate(reqs):
+                    if fresh[i] is not None and serial[i] != fresh[i]:
+                        fails.append(("the answer depends on what the worker served before (-t=%d)" % N, "response-depends-on-earlier-requests", None,
+                                      {"request": r[:200].decode("latin-1"), "threads": N, "fresh_server": (fresh[i] or b"")[-300:].decode("latin-1"), "after_other_requests": (serial[i] or b"")[-300:].decode("latin-1")}))
+                        break
                 for wave in range(3 if tier == "quick" else 6):
                     k = rnd.choice([8, 16, 32, 64])
                     picks = [rnd.randrange(len(reqs)) for _ in range(k)]
